@@ -47,6 +47,7 @@ private:
   uint32_t lo;
   bool ra_was_set;
   bool force_break;
+  bool in_delay_slot;
 };
 
 #endif
